@@ -46,6 +46,9 @@ pub enum Op {
     /// sample rate in permille, maximal number of sampled rows
     Analyze(u32, usize),
     MkIx,
+    /// the INSERT / UPDATE / DELETE statements up to `endbatch` (or the next other op) run as one `execute_batch`
+    Batch,
+    EndBatch,
 }
 
 fn show_ixs(ixs: &[Ix]) -> String {
@@ -87,6 +90,8 @@ fn show_op(op: &Op) -> String {
         Op::Vacuum => "vacuum".into(),
         Op::Analyze(r, m) => format!("analyze {} {}", r, m),
         Op::MkIx => "mkix".into(),
+        Op::Batch => "batch".into(),
+        Op::EndBatch => "endbatch".into(),
     }
 }
 
@@ -109,6 +114,8 @@ fn parse_plan_case(line: &str) -> Option<(Vec<Table>, Vec<Ix>, Vec<Op>)> {
             ["commit"] => Op::Commit,
             ["vacuum"] => Op::Vacuum,
             ["mkix"] => Op::MkIx,
+            ["batch"] => Op::Batch,
+            ["endbatch"] => Op::EndBatch,
             ["analyze", r, m] => {
                 let ok = |s: &str| !s.is_empty() && s.len() < 8 && s.bytes().all(|b| b.is_ascii_digit());
                 if !ok(r) || !ok(m) {
@@ -149,6 +156,7 @@ fn sql_ty(t: Ty) -> &'static str {
         Ty::BigInt => "BIGINT",
         Ty::Bool => "BOOLEAN",
         Ty::Text => "TEXT",
+        Ty::Double => "DOUBLE",
     }
 }
 
@@ -173,6 +181,12 @@ fn leaves(f: &From, db: &[Table], out: &mut Vec<(usize, usize)>, width: &mut usi
             leaves(l, db, out, width);
             leaves(r, db, out, width);
         }
+        // a derived table written in the case itself (engine `sql` generates them; this engine's generator does not):
+        // one opaque leaf
+        From::Derived(_, _, items) => {
+            out.push((super::sql::DERIVED_LEAF, *width));
+            *width += items.len();
+        }
     }
 }
 
@@ -184,8 +198,7 @@ fn leaves_of(f: &From, db: &[Table]) -> (Vec<(usize, usize)>, usize) {
 }
 
 fn from_tys(f: &From, db: &[Table]) -> Vec<Ty> {
-    let (ls, _) = leaves_of(f, db);
-    ls.iter().flat_map(|(t, _)| db.get(*t).map(|t| t.tys.clone()).unwrap_or_default()).collect()
+    super::sql::from_tys(f, db)
 }
 
 #[derive(Clone, Copy, PartialEq, Eq, Debug)]
@@ -251,8 +264,8 @@ fn expr_cols(e: &E, out: &mut Vec<usize>) {
     match e {
         E::Lit(_) => {}
         E::Col(i) => out.push(*i),
-        E::Not(a) | E::Neg(a) | E::Pos(a) | E::IsNull(_, a) => expr_cols(a, out),
-        E::And(a, b) | E::Or(a, b) | E::Cmp(_, a, b) | E::Arith(_, a, b) | E::Like(_, a, b) => {
+        E::Not(a) | E::Neg(a) | E::Pos(a) | E::IsNull(_, a) | E::StrFn(_, a) => expr_cols(a, out),
+        E::And(a, b) | E::Or(a, b) | E::Cmp(_, a, b) | E::Arith(_, a, b) | E::Like(_, a, b) | E::Concat(a, b) => {
             expr_cols(a, out);
             expr_cols(b, out)
         }
@@ -265,6 +278,18 @@ fn expr_cols(e: &E, out: &mut Vec<usize>) {
             expr_cols(a, out);
             for x in xs {
                 expr_cols(x, out)
+            }
+        }
+        E::Case(x, arms, els) => {
+            if let Some(x) = x {
+                expr_cols(x, out)
+            }
+            for (c, r) in arms {
+                expr_cols(c, out);
+                expr_cols(r, out)
+            }
+            if let Some(e) = els {
+                expr_cols(e, out)
             }
         }
     }
@@ -292,20 +317,26 @@ fn left_deep(f: &From) -> Option<(usize, Vec<(&'static str, Option<E>)>)> {
             js.push((*k, on.clone()));
             Some((t, js))
         }
+        From::Derived(..) => None,
     }
 }
 
 /// FROM clause as written
-fn sql_from_plain(f: &From, next: &mut usize, col: &dyn Fn(usize) -> String) -> String {
+fn sql_from_plain(f: &From, db: &[Table], next: &mut usize, col: &dyn Fn(usize) -> String) -> String {
     match f {
         From::Table(t) => {
             let s = format!("t{} AS r{}", t, *next);
             *next += 1;
             s
         }
+        From::Derived(inner, w, items) => {
+            let s = super::sql::sql_derived(inner, w, items, *next, db);
+            *next += 1;
+            s
+        }
         From::Join(k, l, r, on) => {
-            let ls = sql_from_plain(l, next, col);
-            let rs = sql_from_plain(r, next, col);
+            let ls = sql_from_plain(l, db, next, col);
+            let rs = sql_from_plain(r, db, next, col);
             match on {
                 Some(e) => format!("{} {} {} ON {}", ls, join_kw(k), rs, sql_expr(e, 1, col)),
                 None => format!("{} {} {}", ls, join_kw(k), rs),
@@ -447,6 +478,7 @@ fn sql_from_derived(
         _ => {
             fn go(
                 f: &From,
+                db: &[Table],
                 next: &mut usize,
                 derived: &mut dyn FnMut(usize, usize, Option<String>) -> String,
                 col: &dyn Fn(usize) -> String,
@@ -457,9 +489,14 @@ fn sql_from_derived(
                         *next += 1;
                         s
                     }
+                    From::Derived(inner, w, items) => {
+                        let s = super::sql::sql_derived(inner, w, items, *next, db);
+                        *next += 1;
+                        s
+                    }
                     From::Join(k, l, r, on) => {
-                        let ls = go(l, next, derived, col);
-                        let rs = go(r, next, derived, col);
+                        let ls = go(l, db, next, derived, col);
+                        let rs = go(r, db, next, derived, col);
                         match on {
                             Some(e) => format!("{} {} {} ON {}", ls, join_kw(k), rs, sql_expr(e, 1, col)),
                             None => format!("{} {} {}", ls, join_kw(k), rs),
@@ -468,7 +505,7 @@ fn sql_from_derived(
                 }
             }
             let mut next = 0;
-            (go(f, &mut next, &mut derived, col), None)
+            (go(f, db, &mut next, &mut derived, col), None)
         }
     }
 }
@@ -497,7 +534,7 @@ pub fn select_sql(q: &Select, db: &[Table], ixs: &[Ix], v: Variant) -> Option<St
         }
         _ => {
             let mut next = 0;
-            (sql_from_plain(&q.from, &mut next, &col), vec![])
+            (sql_from_plain(&q.from, db, &mut next, &col), vec![])
         }
     };
     let out_exprs: Vec<String>;
@@ -847,6 +884,42 @@ pub struct Outcome {
     pub facts: BTreeMap<String, usize>,
 }
 
+/// `Database::execute_batch` of the collected statements on both databases; the outcome of every statement goes to
+/// its place in `outs`.  A failed batch fails as a whole (`E<class>` for each of its statements).
+fn flush_batch(stmts: &[(usize, String)], early: &mut Inst, late: Option<&mut Inst>, outs: &mut [String], failed: &mut bool) {
+    if stmts.is_empty() {
+        return;
+    }
+    let sqls: Vec<&str> = stmts.iter().map(|(_, s)| s.as_str()).collect();
+    let run = |inst: &mut Inst| -> Vec<String> {
+        match inst.db().execute_batch(&sqls) {
+            Ok(rs) => rs.into_iter().map(|r| canon_result(Ok(r), None)).collect(),
+            Err(e) => {
+                let c = format!("E{}", err_class(&e.to_string()));
+                sqls.iter().map(|_| c.clone()).collect()
+            }
+        }
+    };
+    let a = run(early);
+    let e = late.map(run);
+    for (k, (pos, _)) in stmts.iter().enumerate() {
+        let ak = a.get(k).cloned().unwrap_or_else(|| "Eother".into());
+        let mut o = ak.clone();
+        if let Some(e) = &e {
+            let ek = e.get(k).cloned().unwrap_or_else(|| "Eother".into());
+            if ek != ak {
+                o = format!("PROPFAIL variant=e a={} e={}", ak, ek);
+            }
+        }
+        if ak.starts_with('E') {
+            *failed = true;
+        }
+        if let Some(slot) = outs.get_mut(*pos) {
+            *slot = o;
+        }
+    }
+}
+
 /// Runs a case.  `run_queries = false`: only EXPLAIN (used by the generator to measure plan diversity).
 pub fn run_case(line: &str, run_queries: bool) -> Outcome {
     let mut facts: BTreeMap<String, usize> = BTreeMap::new();
@@ -876,12 +949,35 @@ pub fn run_case(line: &str, run_queries: bool) -> Outcome {
     // digest of form `a` of every query text seen so far (to see whether ANALYZE changed the plan)
     let mut seen: BTreeMap<String, String> = BTreeMap::new();
     let mut analyzed = false;
+    // an open batch: (position in `outs`, SQL text) of the statements collected so far
+    let mut batch: Option<Vec<(usize, String)>> = None;
     for (opno, op) in ops.iter().enumerate() {
         if failed {
             outs.push("-".into());
             continue;
         }
+        let collects = batch.is_some() && early.sess.is_none() && matches!(op, Op::Stmt(Stmt::Insert(..) | Stmt::Update(..) | Stmt::Delete(..)));
+        if !collects {
+            if let Some(stmts) = batch.take() {
+                flush_batch(&stmts, &mut early, late.as_mut(), &mut outs, &mut failed);
+                if failed {
+                    outs.push("-".into());
+                    continue;
+                }
+            }
+        }
         match op {
+            Op::Batch => {
+                batch = Some(Vec::new());
+                outs.push("ok".into());
+            }
+            Op::EndBatch => outs.push("ok".into()),
+            Op::Stmt(s @ (Stmt::Insert(..) | Stmt::Update(..) | Stmt::Delete(..))) if collects => {
+                if let Some(b) = batch.as_mut() {
+                    b.push((outs.len(), dml_sql(s)));
+                }
+                outs.push("?".into());
+            }
             Op::Begin => {
                 for inst in std::iter::once(&mut early).chain(late.iter_mut()) {
                     if inst.sess.is_none() {
@@ -1021,6 +1117,9 @@ pub fn run_case(line: &str, run_queries: bool) -> Outcome {
             panics.push(p);
         }
     }
+    if let Some(stmts) = batch.take() {
+        flush_batch(&stmts, &mut early, late.as_mut(), &mut outs, &mut failed);
+    }
     let pairs = facts.get("pairs").copied().unwrap_or(0);
     let differ = facts.get("differ").copied().unwrap_or(0);
     let mut line = format!("{} ## pairs={} differ={} {}", outs.join(" ; "), pairs, differ, diags.join(" "));
@@ -1143,6 +1242,8 @@ fn to_vexpr(e: &E) -> vp::VExpr {
         E::IsNull(n, a) => vp::VExpr::IsNull(*n, b(a)),
         E::Between(n, a, lo, hi) => vp::VExpr::Between(*n, b(a), b(lo), b(hi)),
         E::InList(n, a, xs) => vp::VExpr::InList(*n, b(a), xs.iter().map(to_vexpr).collect()),
+        // CASE and the string functions are not part of the rule facade; the plan generators never produce them
+        E::Case(..) | E::StrFn(..) | E::Concat(..) => vp::VExpr::Lit(vp::VLit::Null),
     }
 }
 
@@ -1409,6 +1510,8 @@ impl<'a> RG<'a> {
             }
             Ty::Bool => E::Lit(Val::Bool(self.rng.chance(1, 2))),
             Ty::Text => E::Lit(Val::Text(self.rng.pick(&TEXTS).as_bytes().to_vec())),
+            // (the generators of this engine build no DOUBLE columns)
+            Ty::Double => E::Lit(Val::Null),
         }
     }
 
@@ -1577,6 +1680,7 @@ fn gen_rule_case_once(rng: &mut Rng) -> Option<Case> {
                         Ty::BigInt => 'B',
                         Ty::Bool => 'O',
                         Ty::Text => 'S',
+                        Ty::Double => 'D',
                     };
                     if *nn { ch.to_ascii_lowercase() } else { ch }
                 })
@@ -1599,7 +1703,8 @@ fn gen_rule_case_once(rng: &mut Rng) -> Option<Case> {
                             Ty::Int => vp::VTy::Int,
                             Ty::BigInt => vp::VTy::BigInt,
                             Ty::Bool => vp::VTy::Bool,
-                            Ty::Text => vp::VTy::Text,
+                            // (no DOUBLE columns in rule cases)
+                            Ty::Text | Ty::Double => vp::VTy::Text,
                         },
                         *nn,
                     )
@@ -1752,6 +1857,7 @@ impl<'a> G<'a> {
             }
             Ty::Bool => Val::Bool(self.rng.chance(1, 2)),
             Ty::Text => Val::Text(self.rng.pick(&TEXTS).as_bytes().to_vec()),
+            Ty::Double => Val::Null,
         }
     }
 
@@ -2182,6 +2288,248 @@ impl<'a> G<'a> {
         }
     }
 
+    /// `WHERE k1 = v1 [AND k2 = v2]` over the columns of an index, for the key of `row` (a NULL part: `IS NULL`)
+    fn key_pred(&mut self, kcols: &[usize], row: &[Val]) -> E {
+        let mut cs = Vec::new();
+        for &c in kcols {
+            let v = row[c].clone();
+            cs.push(if v == Val::Null {
+                E::IsNull(false, b(E::Col(c)))
+            } else if self.rng.chance(1, 4) {
+                cmp("eq", E::Lit(v), E::Col(c))
+            } else {
+                cmp("eq", E::Col(c), E::Lit(v))
+            });
+        }
+        conj(cs).unwrap()
+    }
+
+    fn star_query(&self, t: usize, w: Option<E>) -> Op {
+        Op::Stmt(Stmt::Select(Select {
+            distinct: false,
+            from: From::Table(t),
+            where_: w,
+            group_by: vec![],
+            aggs: vec![],
+            items: None,
+            order_by: vec![],
+            limit: None,
+            offset: None,
+            having: None,
+        }))
+    }
+
+    /// The family "keys re-used inside one transaction".  Within one session (committed or rolled back) or one
+    /// `execute_batch`: rows are deleted and rows with the same indexed keys are inserted again (same or other values in
+    /// the remaining columns); the mirror shapes (insert then delete; delete, insert, delete [, insert]); and the key of a
+    /// rolled-back INSERT inserted again.  Afterwards every touched key is looked up — the pair forms compare the index
+    /// plan with the table scan — before and after VACUUM (and after ANALYZE where it is allowed).
+    fn reuse_family(&mut self, ops: &mut Vec<Op>) -> bool {
+        let cands: Vec<(usize, usize)> = self
+            .ixs
+            .iter()
+            .enumerate()
+            .filter(|(_, x)| self.cur[x.table].len() >= 2)
+            .map(|(i, x)| (i, x.table))
+            .collect();
+        if cands.is_empty() {
+            return false;
+        }
+        let (ixno, t) = *self.rng.pick(&cands);
+        let kcols = self.ixs[ixno].cols.clone();
+        let tys = self.db[t].tys.clone();
+        // 0 delete+reinsert, 1 mirror (insert then delete), 2 delete-insert-delete[-insert], 3 key of a rolled-back insert
+        let shape = *self.rng.pick(&[0usize, 0, 0, 0, 1, 2, 2, 3]);
+        // 0 session committed, 1 batch, 2 session rolled back
+        let form = if shape == 3 {
+            2
+        } else if self.region == Region::ReinsertInRollback {
+            *self.rng.pick(&[2usize, 2, 0, 1])
+        } else if shape == 1 {
+            *self.rng.pick(&[0usize, 1, 2])
+        } else {
+            *self.rng.pick(&[0usize, 0, 1, 1])
+        };
+        self.tag(&format!("fam.reuse.{}", ["delete-insert", "insert-delete", "delete-insert-delete", "after-rolled-back-insert"][shape]));
+        self.tag(&format!("fam.form.{}", ["session-commit", "batch", "session-rollback"][form]));
+        if form == 2 && (shape == 0 || shape == 2) {
+            // the listed finding: the index entry of the old row is replaced and not restored by the rollback
+            self.tag("reg.reinsert-in-rollback");
+        }
+        let saved = (self.cur.clone(), self.deleted.clone());
+        let mut touched: Vec<Vec<Val>> = Vec::new(); // rows whose keys are looked up afterwards
+        let mut body: Vec<Op> = Vec::new();
+        // a row that re-uses the unique keys of `old` (all of them, or the indexed ones only), other columns the same or new
+        let reuse = |g: &mut Self, old: &[Val]| -> Vec<Val> {
+            let only_index = g.rng.chance(1, 3);
+            let same_rest = g.rng.chance(1, 3);
+            (0..tys.len())
+                .map(|c| {
+                    if kcols.contains(&c) {
+                        old[c].clone()
+                    } else if g.uniq[t].contains(&c) {
+                        if only_index { g.fresh_val(t, c) } else { old[c].clone() }
+                    } else if same_rest {
+                        old[c].clone()
+                    } else {
+                        g.plain_val(tys[c], true)
+                    }
+                })
+                .collect()
+        };
+        let del_of = |g: &mut Self, row: &[Val]| -> Stmt {
+            // by the indexed key (through the index) or by id
+            let w = if g.rng.chance(2, 3) && kcols.iter().all(|c| row[*c] != Val::Null) {
+                g.key_pred(&kcols, row)
+            } else {
+                cmp("eq", E::Col(0), E::Lit(row[0].clone()))
+            };
+            Stmt::Delete(t, Some(w))
+        };
+        let ins_of = |rows: &[Vec<Val>]| -> Stmt { Stmt::Insert(t, rows.iter().map(|r| r.iter().map(|v| E::Lit(v.clone())).collect()).collect()) };
+        match shape {
+            0 => {
+                let k = (self.rng.range(1, 3) as usize).min(self.cur[t].len());
+                let mut idx: Vec<usize> = (0..self.cur[t].len()).collect();
+                self.rng.shuffle(&mut idx);
+                let victims: Vec<Vec<Val>> = idx[..k].iter().map(|i| self.cur[t][*i].clone()).collect();
+                for v in &victims {
+                    let d = del_of(self, v);
+                    if let Stmt::Delete(_, w) = &d {
+                        self.sim_delete(t, w);
+                    }
+                    body.push(Op::Stmt(d));
+                    touched.push(v.clone());
+                }
+                let nre = self.rng.range(1, k as i64) as usize;
+                let mut news: Vec<Vec<Val>> = victims[..nre].iter().map(|v| reuse(self, v)).collect();
+                if self.rng.chance(1, 4) {
+                    news.push(self.new_row(t));
+                }
+                if self.rng.chance(1, 2) || news.len() == 1 {
+                    self.sim_insert(t, &news);
+                    body.push(Op::Stmt(ins_of(&news)));
+                } else {
+                    for r in &news {
+                        self.sim_insert(t, std::slice::from_ref(r));
+                        body.push(Op::Stmt(ins_of(std::slice::from_ref(r))));
+                    }
+                }
+                touched.extend(news);
+            }
+            1 => {
+                let n = self.rng.range(1, 3) as usize;
+                let news: Vec<Vec<Val>> = (0..n).map(|_| self.new_row(t)).collect();
+                self.sim_insert(t, &news);
+                body.push(Op::Stmt(ins_of(&news)));
+                let nd = self.rng.range(1, n as i64) as usize;
+                for v in news[..nd].to_vec() {
+                    let d = del_of(self, &v);
+                    if let Stmt::Delete(_, w) = &d {
+                        self.sim_delete(t, w);
+                    }
+                    body.push(Op::Stmt(d));
+                }
+                if self.rng.chance(1, 2) {
+                    let again = reuse(self, &news[0]);
+                    self.sim_insert(t, std::slice::from_ref(&again));
+                    body.push(Op::Stmt(ins_of(std::slice::from_ref(&again))));
+                    touched.push(again);
+                }
+                touched.extend(news);
+            }
+            2 => {
+                let v = self.cur[t][self.rng.below(self.cur[t].len() as u64) as usize].clone();
+                let rounds = self.rng.range(1, 2);
+                let mut last = v.clone();
+                for r in 0..=rounds {
+                    let d = del_of(self, &last);
+                    if let Stmt::Delete(_, w) = &d {
+                        self.sim_delete(t, w);
+                    }
+                    body.push(Op::Stmt(d));
+                    if r < rounds || self.rng.chance(1, 2) {
+                        last = reuse(self, &v);
+                        // the same row identity every time: only the indexed key must be the same, the other unique
+                        // columns may have become fresh ones
+                        self.sim_insert(t, std::slice::from_ref(&last));
+                        body.push(Op::Stmt(ins_of(std::slice::from_ref(&last))));
+                    }
+                }
+                touched.push(v);
+                touched.push(last);
+            }
+            _ => {
+                let n = self.rng.range(1, 2) as usize;
+                let news: Vec<Vec<Val>> = (0..n).map(|_| self.new_row(t)).collect();
+                self.sim_insert(t, &news);
+                body.push(Op::Stmt(ins_of(&news)));
+                touched.extend(news);
+            }
+        }
+        match form {
+            0 => {
+                ops.push(Op::Begin);
+                ops.extend(body);
+                ops.push(Op::Commit);
+            }
+            1 => {
+                ops.push(Op::Batch);
+                ops.extend(body);
+                ops.push(Op::EndBatch);
+            }
+            _ => {
+                ops.push(Op::Begin);
+                ops.extend(body);
+                ops.push(Op::Rollback);
+                self.cur = saved.0;
+                self.deleted = saved.1;
+            }
+        }
+        if shape == 3 {
+            // the keys of the rolled-back INSERT again: autocommit, a committed session or a batch
+            let again: Vec<Vec<Val>> = touched.iter().map(|r| reuse(self, r)).collect();
+            let wrap = self.rng.below(3);
+            match wrap {
+                0 => {}
+                1 => ops.push(Op::Begin),
+                _ => ops.push(Op::Batch),
+            }
+            self.sim_insert(t, &again);
+            ops.push(Op::Stmt(ins_of(&again)));
+            match wrap {
+                0 => {}
+                1 => ops.push(Op::Commit),
+                _ => ops.push(Op::EndBatch),
+            }
+            touched.extend(again);
+        }
+        // look every touched key up: through the index and through the table
+        touched.truncate(5);
+        let mut lookups: Vec<Op> = Vec::new();
+        for r in &touched {
+            let w = self.key_pred(&kcols, r);
+            lookups.push(self.star_query(t, Some(w)));
+        }
+        if is_int(tys[kcols[0]]) {
+            let ks: Vec<i128> = touched.iter().filter_map(|r| if let Val::Int(i) = r[kcols[0]] { Some(i) } else { None }).collect();
+            if let (Some(lo), Some(hi)) = (ks.iter().min(), ks.iter().max()) {
+                let w = and(cmp("ge", E::Col(kcols[0]), lit_i(*lo)), cmp("le", E::Col(kcols[0]), lit_i(*hi)));
+                lookups.push(self.star_query(t, Some(w)));
+            }
+        }
+        ops.extend(lookups.iter().cloned());
+        self.tag("hist.vacuum");
+        ops.push(Op::Vacuum);
+        ops.extend(lookups.iter().cloned());
+        if self.allow_analyze && self.rng.chance(1, 2) {
+            let a = self.analyze_op();
+            ops.push(a);
+            ops.extend(lookups.iter().cloned());
+        }
+        true
+    }
+
     fn analyze_op(&mut self) -> Op {
         let r = *self.rng.pick(&[1000u32, 1000, 500, 100, 10, 1]);
         let m = *self.rng.pick(&[10000usize, 1000, 50, 5, 1]);
@@ -2440,7 +2788,7 @@ impl<'a> G<'a> {
                 self.tag("where.indexable");
             }
         }
-        let mut q = Select { distinct: false, from, where_, group_by: vec![], aggs: vec![], items: None, order_by: vec![], limit: None, offset: None };
+        let mut q = Select { distinct: false, from, where_, group_by: vec![], aggs: vec![], items: None, order_by: vec![], limit: None, offset: None, having: None };
         let kind = self.rng.below(10);
         if kind < 2 {
             self.tag("q.agg");
@@ -2558,14 +2906,18 @@ fn gen_case(rng: &mut Rng) -> (String, BTreeSet<String>) {
         }
         _ => {}
     }
+    // keys re-used inside one transaction (sessions and batches)
+    if matches!(g.region, Region::None | Region::ReinsertInRollback) && (g.region == Region::ReinsertInRollback || g.rng.chance(1, 3)) {
+        g.reuse_family(&mut ops);
+    }
     // where the late database creates its indexes: mostly after the history, sometimes in its middle
     if !g.ixs.is_empty() && g.rng.chance(9, 10) {
         let in_session = |ops: &[Op], pos: usize| {
             let mut open = false;
             for o in &ops[..pos] {
                 match o {
-                    Op::Begin => open = true,
-                    Op::Rollback | Op::Commit => open = false,
+                    Op::Begin | Op::Batch => open = true,
+                    Op::Rollback | Op::Commit | Op::EndBatch => open = false,
                     _ => {}
                 }
             }
